@@ -3,7 +3,7 @@
    combination, so the hypothesis [wf] of the C15 theorems holds of every parsed query. *)
 From Coq Require Import List NArith Bool.
 From Verif Require model.CqlEval model.CqlSyntax model.CqlPrinter model.CqlParser proofs.CqlEvalProofs
-  proofs.CqlSimplifyProofs proofs.CqlParseProofs.
+  proofs.CqlSimplifyProofs proofs.CqlParseProofs proofs.CqlLexPrintProofs proofs.CqlAcceptedProofs lib.Quote.
 Import ListNotations.
 
 Module E := Verif.model.CqlEval.
@@ -71,6 +71,32 @@ Proof.
   destruct (P.parse_tokens ts) as [| |a rest]; try discriminate.
   destruct (P.visit e a) as [|n' errs] eqn:V; [discriminate|].
   destruct errs; [|discriminate]. inversion F; subst. eapply CqlParseProofs.visit_nonempty. exact V.
+Qed.
+
+(* [conv] is total on what the parser hands over: the zero property type only comes with a visitor error and the
+   operator of a COMPARATOR token is always one of the constants (needs the environment's lower-casing to be the ASCII
+   map on ASCII and to respect the grammar's classes on the characters of the text — CqlAcceptedProofs.env_ok, lowok) *)
+Lemma conv_total_pre : forall e n, CqlAcceptedProofs.pre_tree e n -> exists m, conv n = Some m.
+Proof.
+  intros e. induction n as [pt k o v|b ch IH] using CqlSimplifyProofs.node_ind'; intros Hp.
+  - inversion Hp as [? ? ? ? (Hk & Ho & _)|]; subst. cbn [conv].
+    destruct pt; cbn [CqlLexPrintProofs.key_ok] in Hk; try contradiction;
+      destruct o; try (exfalso; exact (Ho _ eq_refl)); eexists; reflexivity.
+  - inversion Hp as [|? ? Hch]; subst. cbn [conv].
+    assert (HA : exists l, all_some (map conv ch) = Some l).
+    { clear Hp. induction ch as [|c ch IHch]; [exists []; reflexivity|].
+      inversion IH; subst. inversion Hch; subst. destruct (H1 H3) as [c' Ec]. destruct (IHch H2 H4) as [l El].
+      exists (c' :: l). cbn [map all_some]. rewrite Ec, El. reflexivity. }
+    destruct HA as [l ->]. eexists. reflexivity.
+Qed.
+
+Theorem parsed_tree_converts : forall e s n, CqlAcceptedProofs.env_ok e -> Quote.valid_codepoints s ->
+  Forall (CqlAcceptedProofs.lowok e) s -> P.parse_front e s = P.FTree n ->
+  exists m, conv n = Some m /\ CqlEvalProofs.wf m.
+Proof.
+  intros e s n He Hs Hl F.
+  destruct (conv_total_pre e n (CqlAcceptedProofs.front_pre_tree e He s n Hs Hl F)) as [m Em].
+  exists m. split; [exact Em|]. eapply parsed_tree_wf; eauto.
 Qed.
 
 Example conv_example :
